@@ -46,6 +46,9 @@ func NewSparseFloat64Vector(indices []int, values []float64, n int) *SparseFloat
   }
   r := nilSparseFloat64Vector(n)
   for i, k := range indices {
+    if k < 0 {
+      panic("negative index")
+    }
     if k >= n {
       panic("index larger than vector dimension")
     }
